@@ -245,7 +245,7 @@ end
 
 /-! ### what `S` returns -/
 section
-variable [Add α] [Neg α] [LT α] [DecidableLT α]
+variable [Add α] [Neg α] [LT α] [DecidableLT α] [BEq α]
 
 /-- no value handed to `math.log` is outside its domain (in particular: the flag is set, or `logDom` is total) -/
 def NoDomainError (nm : Num α) (h : ObjS α) (tr : Trk α) (obs : List String) (log : Bool) (mode : Nat) : Prop :=
